@@ -36,6 +36,11 @@ Definition reopen (h : handle) : option handle :=
   then Some (mkHandle (hd_method h) (hd_xff h) (hd_maxret h) (hd_disk h) (hd_disk h) true)
   else None.
 
+(** [Create] with an open flag that lacks O_EXCL, on a path that already holds a synced file with the
+    same header: the length does not change (Truncate to the same size), the page buffer shows what is
+    on disk and the header is written to the buffer only -- the handle a fresh [Open] would give *)
+Definition create_over (h : handle) : option handle := reopen h.
+
 Inductive uout := OutErr | OutPanic | OutOk.
 
 Definition h_update (F : fops) (h : handle) (id t v now : Z) : handle * uout :=
